@@ -166,3 +166,40 @@ package stack
 //@   loop 0: invariant s.state == looking && (err == nil || err == io.EOF) ==> old(fetched(in)) + (wlen(prefix) - old(wlen(prefix))) == pos(r)
 //@   loop 0: decreases (err == nil ? 1 : 0)
 //@   loop 0: decreases N(in) - pos(r)
+
+// ---- stack.go: similarity (C05) --------------------------------------------
+// Spec predicates written from the property statement: two argument lists are
+// similar when they have the same shape and their scalar leaves agree exactly
+// (ExactFlags, ExactLines), up to pointer values (AnyPointer) or up to all
+// values (AnyValue).
+
+//@ spec SimLeaf(a *Arg, r *Arg, lvl Similarity) bool = (lvl == ExactFlags || lvl == ExactLines) ? (a.Name == r.Name && a.IsOffsetTooLarge == r.IsOffsetTooLarge && a.IsPtr == r.IsPtr && a.Value == r.Value) : lvl == AnyPointer ? (a.IsOffsetTooLarge == r.IsOffsetTooLarge && a.IsPtr == r.IsPtr && (a.IsPtr || a.Value == r.Value)) : lvl == AnyValue
+//@ spec SimArg(a *Arg, r *Arg, lvl Similarity) bool = a.IsAggregate == r.IsAggregate && (a.IsAggregate ? (a.Fields.Elided == r.Fields.Elided && SimVals(a.Fields.Values, r.Fields.Values, lvl)) : SimLeaf(a, r, lvl))
+//@ spec SimVals(a []Arg, r []Arg, lvl Similarity) bool = len(a) == len(r) && forall i :: 0 <= i && i < len(a) ==> SimArg(&a[i], &r[i], lvl)
+//@ pred SimArgs(a *Args, r *Args, lvl Similarity) = a.Elided == r.Elided && SimVals(a.Values, r.Values, lvl)
+
+//@ func (*Arg).similar
+//@   requires a != nil && r != nil
+//@   modifies nothing
+//@   ensures [argSimilarIsSpec C05] result <==> SimArg(a, r, similar)
+
+//@ func (*Arg).equal
+//@   requires a != nil && r != nil
+//@   modifies nothing
+//@   ensures [argEqualIsSpec C05 C12] result <==> SimArg(a, r, ExactFlags)
+
+//@ func (*Args).similar
+//@   requires a != nil && r != nil
+//@   modifies nothing
+//@   ensures [argsSimilarIsSpec C05] result <==> SimArgs(a, r, similar)
+//@   loop 0: invariant -1 <= rangeindex && rangeindex < len(a.Values) && len(a.Values) == len(r.Values) && a.Elided == r.Elided && r != nil
+//@   loop 0: invariant forall j :: 0 <= j && j <= rangeindex ==> SimArg(&a.Values[j], &r.Values[j], similar)
+//@   loop 0: decreases len(a.Values) - rangeindex
+
+//@ func (*Args).equal
+//@   requires a != nil && r != nil
+//@   modifies nothing
+//@   ensures [argsEqualIsSpec C05 C12] result <==> SimArgs(a, r, ExactFlags)
+//@   loop 0: invariant -1 <= rangeindex && rangeindex < len(a.Values) && len(a.Values) == len(r.Values) && a.Elided == r.Elided && r != nil
+//@   loop 0: invariant forall j :: 0 <= j && j <= rangeindex ==> SimArg(&a.Values[j], &r.Values[j], ExactFlags)
+//@   loop 0: decreases len(a.Values) - rangeindex
